@@ -53,8 +53,8 @@ impl K {
 }
 
 trait Dom: Sized + 'static {
-    /// the copy-on-write value
-    type C: Send + 'static;
+    /// the copy-on-write value (`Clone`: `clone_from` is also reached through `Option<C>` / `Vec<C>`)
+    type C: Send + Clone + 'static;
     /// what `into_owned` returns
     type O: Send + 'static;
     type A: 'static;
@@ -67,6 +67,14 @@ trait Dom: Sized + 'static {
     fn arm_panic(_k: usize) {}
     fn disarm_panic() -> bool {
         true
+    }
+    /// number of element objects alive right now (stream C only: `D` counts constructions and destructions)
+    fn live_elems() -> Option<isize> {
+        None
+    }
+    /// `Ord::max` / `Ord::min` (provided methods, by value): `which` 0 = max, 1 = min
+    fn c_minmax(_a: Self::C, _b: Self::C, _which: usize) -> Self::C {
+        unreachable!()
     }
     fn c_bytes(c: &Self::C) -> Vec<u8>;
     fn o_bytes(o: &Self::O) -> Vec<u8>;
@@ -123,6 +131,8 @@ struct Case<'o, D: Dom> {
     /// handles (arcs: 1000 + index) whose content mismatch has been reported already
     reported: Vec<usize>,
     orng: Rng,
+    /// element objects alive when the case started (stream C)
+    elem_base: Option<isize>,
 }
 
 impl<'o, D: Dom> Drop for Case<'o, D> {
@@ -147,6 +157,7 @@ impl<'o, D: Dom> Case<'o, D> {
             dead: false,
             reported: vec![],
             orng,
+            elem_base: D::live_elems(),
         }
     }
 
@@ -216,6 +227,35 @@ impl<'o, D: Dom> Case<'o, D> {
                     self.abandon();
                     return;
                 }
+            }
+        }
+        // every element is destroyed exactly once, at every step: the element objects alive are exactly those of the
+        // live values that own a buffer (Owned, or the plain Vec that `into_owned` returned) plus those of every
+        // Arc block that the harness or a live Shared value still holds
+        if let (Some(base), Some(now)) = (self.elem_base, D::live_elems()) {
+            let mut want = base;
+            for h in 0..self.vals.len() {
+                if self.vals[h].is_some() && matches!(self.kinds[h], K::Ow | K::Plain) {
+                    want += self.exp[h].as_ref().map_or(0, |e| e.len()) as isize;
+                }
+            }
+            for a in 0..self.arcs.len() {
+                let held = self.arcs[a].is_some()
+                    || (0..self.vals.len()).any(|h| self.vals[h].is_some() && self.arc_of[h] == Some(a));
+                if held {
+                    want += self.arc_built[a].len() as isize;
+                }
+            }
+            if now != want && !self.reported.contains(&3000) {
+                self.reported.push(3000);
+                let d = format!(
+                    "{} element object(s) alive, the live values and Arc blocks account for {}: {} element(s) {}",
+                    now - base,
+                    want - base,
+                    (now - want).abs(),
+                    if now > want { "were never destroyed (leaked)" } else { "were destroyed although a live value still owns them (they will be destroyed twice)" }
+                );
+                self.out.oracle_fail("element destructor count", &d);
             }
         }
         // a value whose bytes differ from the record is reported once; Hash/Ord/Display are only consulted
@@ -359,11 +399,11 @@ impl<'o, D: Dom> Case<'o, D> {
             let src = self.vals[h].as_ref().expect("live handle");
             alloc::track(|| f(src))
         };
-        self.bind_clone(h, new, "clone")
+        self.bind_clone(h, new, format!("cow clone {}", h))
     }
 
-    /// bind the result of a clone of `h` to the next handle; `opname` is `clone` or `cloneu`
-    fn bind_clone(&mut self, h: usize, new: V<D>, opname: &str) -> usize {
+    /// bind the result of a clone of `h` to the next handle; `opline` is the model op that made it
+    fn bind_clone(&mut self, h: usize, new: V<D>, opline: String) -> usize {
         let (p, len) = {
             let src = self.vals[h].as_ref().expect("live handle");
             (ptr_of(&new) == ptr_of(src), bytes_of(src).len())
@@ -390,8 +430,119 @@ impl<'o, D: Dom> Case<'o, D> {
         // a clone of a cloned-and-interesting value is interesting in its own right
         self.cloned.push(false);
         self.arc_of.push(arc);
-        self.emit(format!("cow {} {}", opname, h), ans);
+        self.emit(opline, ans);
         k
+    }
+
+    /// `dst.clone_from(&src)` on two copy-on-write values — a provided method of `Clone` (`impl Clone for Cow` defines
+    /// only `clone`), reached directly (route 0), through `Option<Cow>::clone_from` (1) or `Vec<Cow>::clone_from` (2).
+    /// `arm = Some(k)`: the element type's `Clone` panics at its `k`-th call from now; the panic is caught here, as a
+    /// caller could.  Model: the destination's old handle dies, the new value gets the next handle (`clonefrom`);
+    /// when the call unwinds nothing changes (`clonefromu` answers `unwound`).
+    fn clone_from(&mut self, hd: usize, hs: usize, route: usize, arm: Option<usize>) {
+        if self.dead || hd == hs {
+            return;
+        }
+        let mut dst = match self.vals[hd].take() {
+            Some(V::C(c)) => c,
+            _ => panic!("harness: clonefrom into a plain or dead handle"),
+        };
+        let src = match self.vals[hs].take() {
+            Some(V::C(c)) => c,
+            _ => panic!("harness: clonefrom from a plain or dead handle"),
+        };
+        // the containers of routes 1 and 2 are the harness's own (built and released outside the tracked window)
+        let (res, dst, src) = match route {
+            0 => {
+                if let Some(k) = arm {
+                    D::arm_panic(k);
+                }
+                let r = catch_unwind(AssertUnwindSafe(|| alloc::track(|| Clone::clone_from(&mut dst, &src))));
+                D::disarm_panic();
+                (r, dst, src)
+            }
+            1 => {
+                let mut od = Some(dst);
+                let os = Some(src);
+                if let Some(k) = arm {
+                    D::arm_panic(k);
+                }
+                let r = catch_unwind(AssertUnwindSafe(|| alloc::track(|| Clone::clone_from(&mut od, &os))));
+                D::disarm_panic();
+                (r, od.take().expect("Option::clone_from emptied its destination"), os.expect("source"))
+            }
+            _ => {
+                let mut dv = vec![dst];
+                let mut sv = vec![src];
+                if let Some(k) = arm {
+                    D::arm_panic(k);
+                }
+                let r = catch_unwind(AssertUnwindSafe(|| alloc::track(|| Clone::clone_from(&mut dv, &sv))));
+                D::disarm_panic();
+                (r, dv.pop().expect("Vec::clone_from emptied its destination"), sv.pop().expect("source"))
+            }
+        };
+        self.vals[hs] = Some(V::C(src));
+        self.out.count(if arm.is_some() { "op:clonefromu" } else { "op:clonefrom" });
+        self.out.count(&format!("clonefrom route:{}", ["direct", "Option", "Vec"][route.min(2)]));
+        self.out.count(&format!("clonefrom {} <- {}", self.kinds[hd].name(), self.kinds[hs].name()));
+        match res {
+            Err(_) => {
+                // nothing of the destination may have been touched: it goes back under its old handle and the
+                // oracles of `emit` read it, count its elements and (later) drop it
+                self.vals[hd] = Some(V::C(dst));
+                self.out.count(&format!("clonefrom unwound {} <- {}", self.kinds[hd].name(), self.kinds[hs].name()));
+                self.out.nontrivial();
+                self.emit(format!("cow clonefromu {} {}", hd, hs), "unwound".to_string());
+            }
+            Ok(()) => {
+                // the old value of the destination was released inside the call
+                self.exp[hd] = None;
+                if self.cloned[hd] || matches!(self.kinds[hd], K::Ow | K::Sh) {
+                    self.out.nontrivial();
+                }
+                // only an Owned source runs `Clone` of the elements; elsewhere the armed panic cannot fire and the
+                // model's `cloneFromUnwind` is the ordinary `clone_from`
+                let opname = if arm.is_some() && self.kinds[hs] != K::Ow { "clonefromu" } else { "clonefrom" };
+                self.bind_clone(hs, V::C(dst), format!("cow {} {} {}", opname, hd, hs));
+            }
+        }
+    }
+
+    /// `Ord::max(a, b)` / `Ord::min(a, b)` — provided methods of `Ord`, by value: one argument is handed back (it keeps
+    /// its handle), the other one is dropped inside the call (`cow drop`)
+    fn minmax(&mut self, h1: usize, h2: usize, which: usize) {
+        if self.dead || h1 == h2 {
+            return;
+        }
+        let (a, b) = match (self.vals[h1].take(), self.vals[h2].take()) {
+            (Some(V::C(a)), Some(V::C(b))) => (a, b),
+            _ => panic!("harness: minmax on a plain or dead handle"),
+        };
+        let (ea, eb) = (self.exp[h1].clone().unwrap(), self.exp[h2].clone().unwrap());
+        // std: max hands back the second argument unless the first is greater, min the first unless it is greater
+        let first_wins = if which == 0 { ea > eb } else { ea <= eb };
+        let (hw, hl) = if first_wins { (h1, h2) } else { (h2, h1) };
+        let pw = if first_wins { D::c_ptr(&a) } else { D::c_ptr(&b) };
+        let w = alloc::track(move || D::c_minmax(a, b, which));
+        self.out.count(if which == 0 { "op:max" } else { "op:min" });
+        if D::c_ptr(&w) != pw || &D::c_bytes(&w) != self.exp[hw].as_ref().unwrap() {
+            let d = format!(
+                "{}(h{}, h{}) handed back a value reading {} ({} address as its argument h{}), expected h{} itself, reading {}",
+                if which == 0 { "max" } else { "min" },
+                h1,
+                h2,
+                hex(&D::c_bytes(&w)),
+                if D::c_ptr(&w) == pw { "same" } else { "another" },
+                hw,
+                hw,
+                hex(self.exp[hw].as_ref().unwrap())
+            );
+            self.out.oracle_fail("Hash/Ord/Borrow/Display disagree with the content", &d);
+        }
+        self.vals[hw] = Some(V::C(w));
+        self.exp[hl] = None;
+        self.emit(format!("cow drop {}", hl), "ok".to_string());
     }
 
     /// `clone` of a copy-on-write value while the element type's `Clone` is armed to panic at its `k`-th call;
@@ -422,7 +573,7 @@ impl<'o, D: Dom> Case<'o, D> {
             // element (no elements) is an ordinary clone as well
             Ok(new) => {
                 let opname = if self.kinds[h] == K::Ow { "clone" } else { "cloneu" };
-                self.bind_clone(h, V::C(new), opname);
+                self.bind_clone(h, V::C(new), format!("cow {} {}", opname, h));
             }
         }
     }
@@ -577,6 +728,8 @@ impl<'o, D: Dom> Case<'o, D> {
             if D::HAS_EQ { 6 } else { 0 },        // eq
             if has_arcs { 10 } else { 0 },        // shared
             if has_arcs { 2 } else { 0 },         // droparc
+            8,                                    // clonefrom (direct / Option / Vec)
+            if D::HAS_EQ { 3 } else { 0 },        // max / min
         ];
         match r.weighted(&w) {
             0 => match self.pick(r, false) {
@@ -629,11 +782,22 @@ impl<'o, D: Dom> Case<'o, D> {
                 self.shared(a, r.below(2));
                 true
             }
-            _ => {
+            7 => {
                 let a = held[r.below(held.len())];
                 self.droparc(a);
                 true
             }
+            w => match (self.pick(r, true), self.pick(r, true)) {
+                (Some(h1), Some(h2)) if h1 != h2 => {
+                    if w == 8 {
+                        self.clone_from(h1, h2, r.below(3), None);
+                    } else {
+                        self.minmax(h1, h2, r.below(2));
+                    }
+                    true
+                }
+                _ => false,
+            },
         }
     }
 
@@ -697,6 +861,27 @@ fn panic_msg(e: &Box<dyn std::any::Any + Send>) -> String {
     } else {
         "non-string panic payload".to_string()
     }
+}
+
+/// the provided (defaulted) methods of `PartialEq` / `PartialOrd` / `Hash` on two copy-on-write values agree with the
+/// ordering `want` of their contents: `ne`, `lt`, `le`, `gt`, `ge`, and `hash_slice` over both (`pair_hash` = hash of
+/// the two contents as a two-element slice of plain references, which feeds a hasher the same way)
+fn provided_methods<C: PartialEq + PartialOrd + Hash>(x: &C, y: &C, want: std::cmp::Ordering, pair_hash: u64) -> Option<String> {
+    use std::cmp::Ordering::*;
+    let got = (x.ne(y), x.lt(y), x.le(y), x.gt(y), x.ge(y));
+    let exp = (want != Equal, want == Less, want != Greater, want == Greater, want != Less);
+    if got != exp {
+        return Some(format!("(ne, lt, le, gt, ge) = {:?}, the contents compare {:?}", got, want));
+    }
+    // `[C]::hash` = length prefix + `C::hash_slice`
+    let mut h = DefaultHasher::new();
+    h.write_usize(2);
+    C::hash_slice(std::slice::from_ref(x), &mut h);
+    C::hash_slice(std::slice::from_ref(y), &mut h);
+    if h.finish() != pair_hash {
+        return Some("hash_slice over two values differs from the hash of their contents".to_string());
+    }
+    None
 }
 
 fn hash_of<T: Hash + ?Sized>(t: &T) -> u64 {
@@ -773,6 +958,13 @@ impl Dom for StrDom {
     fn into_owned(c: SharedString) -> String {
         c.into_owned()
     }
+    fn c_minmax(a: SharedString, b: SharedString, which: usize) -> SharedString {
+        if which == 0 {
+            Ord::max(a, b)
+        } else {
+            Ord::min(a, b)
+        }
+    }
     fn o_cap(o: &String) -> usize {
         o.capacity()
     }
@@ -827,6 +1019,9 @@ impl Dom for StrDom {
             (V::C(x), V::C(y)) => {
                 if x.partial_cmp(y) != Some(want) {
                     return Some("partial_cmp differs".to_string());
+                }
+                if let Some(d) = provided_methods(x, y, want, hash_of(&[sa, sb][..])) {
+                    return Some(d);
                 }
                 x.cmp(y)
             }
@@ -1290,8 +1485,40 @@ fn b_end(case: &mut Case<LabelDom>, pool: &Pool) {
 
 static LIVE_D: AtomicIsize = AtomicIsize::new(0);
 
-#[derive(Debug, PartialEq, Eq, Hash, PartialOrd, Ord)]
+#[derive(Debug)]
 struct D(u8);
+/// countdown to a panicking comparison / hash of `D` (`eq`, `partial_cmp`, `cmp`, `hash`): -1 = disarmed
+static PANIC_CMP: AtomicIsize = AtomicIsize::new(-1);
+fn cmp_tick() {
+    if PANIC_CMP.load(Ordering::SeqCst) >= 0 && PANIC_CMP.fetch_sub(1, Ordering::SeqCst) == 0 {
+        std::panic::resume_unwind(Box::new(()));
+    }
+}
+impl PartialEq for D {
+    fn eq(&self, o: &D) -> bool {
+        cmp_tick();
+        self.0 == o.0
+    }
+}
+impl Eq for D {}
+impl PartialOrd for D {
+    fn partial_cmp(&self, o: &D) -> Option<std::cmp::Ordering> {
+        cmp_tick();
+        Some(self.0.cmp(&o.0))
+    }
+}
+impl Ord for D {
+    fn cmp(&self, o: &D) -> std::cmp::Ordering {
+        cmp_tick();
+        self.0.cmp(&o.0)
+    }
+}
+impl Hash for D {
+    fn hash<H: Hasher>(&self, state: &mut H) {
+        cmp_tick();
+        self.0.hash(state)
+    }
+}
 impl D {
     fn new(id: u8) -> D {
         LIVE_D.fetch_add(1, Ordering::SeqCst);
@@ -1336,6 +1563,16 @@ impl Dom for SliceDom {
     }
     fn disarm_panic() -> bool {
         PANIC_IN.swap(-1, Ordering::SeqCst) >= 0
+    }
+    fn live_elems() -> Option<isize> {
+        Some(LIVE_D.load(Ordering::SeqCst))
+    }
+    fn c_minmax(a: DCow, b: DCow, which: usize) -> DCow {
+        if which == 0 {
+            Ord::max(a, b)
+        } else {
+            Ord::min(a, b)
+        }
     }
     fn c_bytes(c: &DCow) -> Vec<u8> {
         c.iter().map(|d| d.0).collect()
@@ -1413,6 +1650,9 @@ impl Dom for SliceDom {
             (V::C(x), V::C(y)) => {
                 if x.partial_cmp(y) != Some(want) {
                     return Some("partial_cmp differs".to_string());
+                }
+                if let Some(d) = provided_methods(x, y, want, hash_of(&[&ra[..], &rb[..]][..])) {
+                    return Some(d);
                 }
                 x.cmp(y)
             }
@@ -1517,6 +1757,78 @@ fn c_create(case: &mut Case<SliceDom>, r: &mut Rng, st: &CStatics) {
         _ => {
             let a = held[r.below(held.len())];
             case.shared(a, r.below(2));
+        }
+    }
+}
+
+const READ_OPS: [&str; 10] = ["eq", "ne", "lt", "le", "gt", "ge", "partial_cmp", "cmp", "hash", "hash_slice"];
+
+/// one of the comparison / hash methods of `Cow<[D]>` (defined: `eq`, `partial_cmp`, `cmp`, `hash`; provided by std:
+/// `ne`, `lt`, `le`, `gt`, `ge`, `hash_slice`) on two live copy-on-write values while the element type's own
+/// `PartialEq` / `PartialOrd` / `Ord` / `Hash` panics at its `k`-th call; the panic is caught here, as a caller could.
+/// Nothing is owned by such a call: both values must be exactly what they were (model: `readu` answers `unwound`).
+fn c_read_unwind(case: &mut Case<SliceDom>, h1: usize, h2: usize, which: usize, k: usize) {
+    if case.dead {
+        return;
+    }
+    let res = {
+        let (a, b) = match (case.vals[h1].as_ref(), case.vals[h2].as_ref()) {
+            (Some(V::C(a)), Some(V::C(b))) => (a, b),
+            _ => panic!("harness: readu on a plain or dead handle"),
+        };
+        PANIC_CMP.store(k as isize, Ordering::SeqCst);
+        let r = catch_unwind(AssertUnwindSafe(|| {
+            alloc::track(|| match which {
+                0 => {
+                    let _ = a == b;
+                }
+                1 => {
+                    let _ = a.ne(b);
+                }
+                2 => {
+                    let _ = a.lt(b);
+                }
+                3 => {
+                    let _ = a.le(b);
+                }
+                4 => {
+                    let _ = a.gt(b);
+                }
+                5 => {
+                    let _ = a.ge(b);
+                }
+                6 => {
+                    let _ = a.partial_cmp(b);
+                }
+                7 => {
+                    let _ = a.cmp(b);
+                }
+                8 => {
+                    let mut h = DefaultHasher::new();
+                    a.hash(&mut h);
+                    b.hash(&mut h);
+                }
+                _ => {
+                    let mut h = DefaultHasher::new();
+                    <DCow as Hash>::hash_slice(std::slice::from_ref(a), &mut h);
+                    <DCow as Hash>::hash_slice(std::slice::from_ref(b), &mut h);
+                }
+            })
+        }));
+        PANIC_CMP.store(-1, Ordering::SeqCst);
+        r
+    };
+    case.out.count("op:readu");
+    match res {
+        Err(_) => {
+            case.out.count(&format!("readu unwound:{}", READ_OPS[which.min(9)]));
+            case.out.nontrivial();
+            case.emit(format!("cow readu {} {}", h1, h2), "unwound".to_string());
+        }
+        // the armed element was never reached (different lengths, an early difference, empty values): an ordinary read
+        Ok(()) => {
+            case.out.count("readu: panic not reached");
+            case.deref(h1);
         }
     }
 }
@@ -1706,6 +2018,51 @@ fn case_slice(out: &mut Out, r: &mut Rng, which: Which, st: &CStatics) {
             case.clone_unwind(b, 0); // Borrowed: the words are copied
             case.into_owned_unwind(b, 1);
         }
+        Which::Corpus(11) => {
+            // `clone_from` whose element copy panics part-way, every route, Owned destination and Owned source:
+            // destination longer than the source (a copy that reuses the buffer truncates it first), shorter with
+            // spare capacity, shorter without (a reused buffer would have to grow); afterwards the destination must
+            // be exactly what it was, every element alive exactly once, and a completed `clone_from` must follow
+            let long = c_owned(&mut case, &[1, 2, 3, 4, 5], Shape::Extra(2), 0);
+            let short = c_owned(&mut case, &[6, 7], Shape::Exact, 1);
+            let mid = c_owned(&mut case, &[8, 9, 10], Shape::Extra(1), 0);
+            let same = c_owned(&mut case, &[14, 15, 16], Shape::Exact, 0);
+            for route in 0..3 {
+                case.clone_from(mid, same, route, Some(2)); // 3 <- 3, fails at the last element (nothing may be overwritten)
+                case.clone_from(long, short, route, Some(1)); // 5 <- 2, fails at the second element
+                case.clone_from(long, mid, route, Some(0)); // 5 <- 3, fails at once
+                case.clone_from(short, long, route, Some(3)); // 2 (cap 2) <- 5, fails after the buffer had to grow
+                case.clone_from(mid, long, route, Some(4)); // 3 (cap 4) <- 5
+                case.clone_from(short, mid, route, Some(2)); // 2 (cap 2) <- 3
+            }
+            case.deref(long);
+            case.deref(short);
+            // completed ones: the old buffer of the destination is released, the new value reads the source
+            case.clone_from(long, short, 0, None);
+            case.clone_from(mid, short, 2, None);
+            // other kinds as destination / source, with the panic armed where it cannot fire
+            let a = case.arc(&[11, 12, 13]);
+            let sh = case.shared(a, 0);
+            let b = c_borrowed(&mut case, &SD2, 1);
+            case.clone_from(sh, short, 1, Some(1)); // shared <- owned: unwinds, the reference stays taken
+            case.clone_from(b, short, 0, Some(0)); // borrowed <- owned: unwinds
+            case.clone_from(short, sh, 0, Some(0)); // owned <- shared: no user code runs, completes
+            case.clone_from(sh, b, 2, Some(0)); // shared <- borrowed: completes, one reference given back
+        }
+        Which::Corpus(12) => {
+            // comparisons and hashes (defined and provided methods) whose element operation panics, then max / min
+            let x = c_owned(&mut case, &[1, 2, 3, 4], Shape::Extra(3), 0);
+            let y = c_owned(&mut case, &[1, 2, 3, 5], Shape::Exact, 0);
+            let a = case.arc(&[1, 2, 3, 4]);
+            let z = case.shared(a, 1);
+            for which in 0..10 {
+                c_read_unwind(&mut case, x, y, which, 2);
+                c_read_unwind(&mut case, z, x, which, 3);
+            }
+            case.eq(x, z);
+            case.minmax(x, y, 0); // y is handed back, x dropped inside the call
+            case.minmax(y, z, 1); // z ([1,2,3,4]) < y: z handed back
+        }
         Which::Corpus(_) => {
             let h = c_owned(&mut case, &[1, 2, 3], Shape::Extra(4), 0);
             case.clone(h);
@@ -1717,7 +2074,7 @@ fn case_slice(out: &mut Out, r: &mut Rng, which: Which, st: &CStatics) {
             |c, r| c_create(c, r, st),
             |c, r| {
                 // a panicking element `Clone` inside clone / into_owned, caught by the caller
-                if !r.chance(1, 6) {
+                if !r.chance(1, 4) {
                     return false;
                 }
                 let h = match c.pick(r, true) {
@@ -1726,10 +2083,25 @@ fn case_slice(out: &mut Out, r: &mut Rng, which: Which, st: &CStatics) {
                 };
                 let len = bytes_of(c.vals[h].as_ref().unwrap()).len();
                 let k = r.below(len.max(1));
-                if r.chance(1, 2) {
-                    c.clone_unwind(h, k);
-                } else {
-                    c.into_owned_unwind(h, k);
+                match r.below(5) {
+                    0 => c.clone_unwind(h, k),
+                    1 => c.into_owned_unwind(h, k),
+                    2 => {
+                        let h2 = match c.pick(r, true) {
+                            Some(h2) => h2,
+                            None => return false,
+                        };
+                        c_read_unwind(c, h, h2, r.below(10), r.below(len.max(1) + 1));
+                    }
+                    // `h` is the SOURCE: the panic fires while its k-th element is copied; destinations of every
+                    // kind, shorter / longer / with and without spare capacity
+                    _ => {
+                        let hd = match c.pick(r, true) {
+                            Some(hd) if hd != h => hd,
+                            _ => return false,
+                        };
+                        c.clone_from(hd, h, r.below(3), Some(k));
+                    }
                 }
                 true
             },
@@ -2109,10 +2481,10 @@ pub fn run(cfg: &Cfg, out: &mut Out) {
     };
 
     // corpus
-    for k in 1..=10usize {
+    for k in 1..=12usize {
         let stream = match k {
             5 => 1,
-            7..=10 => 2,
+            7..=12 => 2,
             _ => 0,
         };
         let mut r = root.fork(1_000_000 + k as u64);
